@@ -436,6 +436,12 @@ def check_csv_gap(acc, prop, rng):
         rows2 = [{'date': '2021-03-%02d' % day, 'open': 20.0 + i, 'close': 20.5 + i, 'adj': 20.5 + i}
                  for i, day in enumerate([1, 2, 3, 4, 5, 8])]
         datawl.write_csv(os.path.join(d, 'OK.csv'), rows2, list(range(len(rows2))))
+        # a third asset that sorts before the unpriced one and doubles every day: what was looked up for it during a refused
+        # call is not its price at the next call
+        aaa = [10.0, 20.0, 40.0, 80.0, 160.0, 320.0]
+        rows3 = [{'date': '2021-03-%02d' % day, 'open': aaa[i], 'close': aaa[i], 'adj': aaa[i]}
+                 for i, day in enumerate([1, 2, 3, 4, 5, 8])]
+        datawl.write_csv(os.path.join(d, 'AAA.csv'), rows3, list(range(len(rows3))))
         src = CSVDailyBarDataSource(d, None, adjust_prices=rng.random() < 0.5)
         handler = BacktestDataHandler(None, data_sources=[src])
         case = {'prices': {}, 'equity': 1e6, 'fee': ['zero']}
@@ -447,10 +453,23 @@ def check_csv_gap(acc, prop, rng):
         broker.subscribe_funds_to_portfolio('P', 1e6)
         if prop == 'C10':
             sizer = DollarWeightedCashBufferedOrderSizer(broker, 'P', handler, cash_buffer_percentage=0.05)
-            w = {'EQ:LATE': 0.5, 'EQ:OK': 0.5}
+            w = {'EQ:AAA': 0.3, 'EQ:LATE': 0.3, 'EQ:OK': 0.4}
+            share = {a: 1e6 * 0.95 * x for a, x in w.items()}
         else:
             sizer = LongShortLeveragedOrderSizer(broker, 'P', handler, gross_leverage=1.0)
-            w = {'EQ:LATE': -0.5, 'EQ:OK': 0.5}
+            w = {'EQ:AAA': 0.25, 'EQ:LATE': -0.5, 'EQ:OK': 0.25}
+            share = {a: 1e6 * abs(x) for a, x in w.items()}
+
+        def within_budget(when, res, i):
+            # closes of row i: what each unit costs at this instant (zero fees, nothing held, equity 1e6)
+            px = {'EQ:AAA': aaa[i], 'EQ:LATE': 51.0 + i, 'EQ:OK': 20.5 + i}
+            for a, x in w.items():
+                q = res[a]['quantity']
+                if q * x < 0 or abs(q) * px[a] > share[a] + 1e-6 or (abs(q) + 2) * px[a] < share[a] - 1.0:
+                    raise Violation(prop, 'csv-gap/size-after-refused-calls', 'at %s, after sizing calls refused inside the gap, %s is '
+                                    'sized at %r units of %.2f = %.2f; its share of the budget is %.2f'
+                                    % (when, a, q, px[a], abs(q) * px[a], share[a]), {})
+            acc.count('%s:sizings_after_refused_calls_judged' % prop)
         for when in ('2021-03-01 21:00:00', '2021-03-02 14:30:00', '2021-03-02 21:00:00'):
             try:
                 res = sizer(bw.ts(when), dict(w))
@@ -462,6 +481,8 @@ def check_csv_gap(acc, prop, rng):
         res = sizer(bw.ts('2021-03-03 21:00:00'), dict(w))     # first real price: must size
         if res['EQ:LATE']['quantity'] == 0:
             raise Violation(prop, 'csv-gap/no-size-after-gap', 'no quantity once prices exist: %s' % (res,), {})
+        within_budget('2021-03-03 21:00:00', res, 2)
+        within_budget('2021-03-04 21:00:00', sizer(bw.ts('2021-03-04 21:00:00'), dict(w)), 3)
         # the same sizer / handler serves the next run of a parameter sweep, which starts inside the gap again: what it
         # answered for a later instant is not a price for the earlier one
         for when in ('2021-03-02 14:30:00', '2021-03-01 21:00:00'):
